@@ -149,7 +149,9 @@ def gen_file(rng, nested=False, features=None):
             if use_dict:
                 dsz = rng.choice([1, 2, 3, 4, 5, 7, 8, 9, 15, 16, 17, 31, 33, 255, 257])
                 seen = {}
-                while len(seen) < dsz:
+                tries = 0
+                while len(seen) < dsz and tries < dsz * 8 + 64:     # a 1-byte FLBA has only 256 distinct values: the request may be unsatisfiable
+                    tries += 1
                     v = rand_value(rng, lf.ptype, lf.type_length)
                     seen[v] = 1
                     if lf.ptype == P.BYTE_ARRAY and len(seen) < dsz and rng.random() < 0.05:
